@@ -5,6 +5,8 @@ package hdf5
 import (
 	"os"
 
+	"github.com/scigolib/hdf5/internal/core"
+
 	"github.com/scigolib/hdf5/internal/vrt"
 )
 
@@ -104,3 +106,63 @@ func VerifH_C17_api_truncate_v0_thorough() { verifTruncateScript(0, 0, 100000) }
 
 // the last 130 bytes of a file that ends with a chunk index node
 func VerifH_C17_api_truncate_chunk_index_tail() { verifTruncateScriptOpt(2, 0, 130, true) }
+
+// dense attributes: a dataset with 9 attributes (fractal heap + name index); the file is cut at lengths forked around
+// the dense structures' addresses (inside the heap header, the direct block, the index header and its leaf)
+func VerifH_C17_api_truncate_dense() {
+	vrt.LoopBound(200000)
+	fw, err := CreateForWrite("c17d.h5", CreateTruncate)
+	vrt.AssertNoErr(err, "create-ok")
+	a, err := fw.CreateDataset("/a", Int32, []uint64{1})
+	vrt.AssertNoErr(err, "create-a-ok")
+	vrt.AssertNoErr(a.Write([]int32{vrt.I32()}), "write-a-ok")
+	names := []string{"n0", "n1", "n2", "n3", "n4", "n5", "n6", "n7", "n8"}
+	for i, n := range names {
+		vrt.AssertNoErr(a.WriteAttribute(n, int32(i)), "attr-ok")
+	}
+	addr := a.address
+	vrt.AssertNoErr(fw.Close(), "close-ok")
+	intact, err := verifDumpFile("c17d.h5")
+	vrt.AssertNoErr(err, "intact-open-ok")
+	vrt.Assert(intact.errs == 0 && len(intact.attrs) == 9, "intact-reads-ok")
+	// locate the dense structures through the library's own reader
+	f, err := Open("c17d.h5")
+	vrt.AssertNoErr(err, "intact-open-ok")
+	oh, err := core.ReadObjectHeader(f.osFile, addr, f.sb)
+	vrt.AssertNoErr(err, "header-read-ok")
+	var heapAddr, btreeAddr uint64
+	for _, m := range oh.Messages {
+		if m.Type == core.MsgAttributeInfo {
+			ai, err := core.ParseAttributeInfoMessage(m.Data, f.sb)
+			vrt.AssertNoErr(err, "attrinfo-parse-ok")
+			heapAddr, btreeAddr = ai.FractalHeapAddr, ai.BTreeNameIndexAddr
+		}
+	}
+	_ = f.Close()
+	vrt.Assert(heapAddr != 0 && btreeAddr != 0, "dense-storage-in-use")
+	st, _ := os.Stat("c17d.h5")
+	size := int(st.Size())
+	offs := []int{1, 9, 12, 21, 40, 90, 140, 200, 4000}
+	var base int
+	switch vrt.Choice(3) {
+	case 0:
+		base = int(heapAddr)
+	case 1:
+		base = int(btreeAddr)
+	default:
+		base = size - 4100 // inside / at the end of the last structure
+	}
+	L := base + offs[vrt.Choice(len(offs))]
+	vrt.Assume(L > 0 && L < size)
+	vrt.AssertNoErr(os.Truncate("c17d.h5", int64(L)), "truncate-ok")
+	cut, err := verifDumpFile("c17d.h5")
+	vrt.Covered("dense-cut-dumped")
+	if err != nil {
+		return
+	}
+	vrt.Assert(len(cut.paths) == len(intact.paths) || cut.errs > 0, "members-silently-missing")
+	if cut.errs == 0 {
+		vrt.Assert(len(cut.attrs) == len(intact.attrs), "attributes-silently-missing")
+		vrt.Assert(len(cut.vals) == len(intact.vals), "values-silently-missing")
+	}
+}
